@@ -21,7 +21,10 @@ what earlier rounds had produced and asked for different code locations, clauses
 needing two or more ordering constraints); rounds 5–9 were free to choose the property (round 8 with one
 emphasis per agent: interleavings, faults and retirements, harmless-looking refactorings, easily overlooked
 clauses; in round 9 two of the four agents hunted for defects of the *unchanged* code instead – section 2; round 10, one property per agent again (C04, C12, C14, C20) with
-the triggers named in the request: faults, multi-step histories, unusual inputs, two cooperating sites). Every change was
+the triggers named in the request: faults, multi-step histories, unusual inputs, two cooperating sites; all fourteen were reported by the quick checks as they stood. Two first confirmations of C04-s14
+reported nothing because something else was switching the same worktree between patched and clean meanwhile – once its author,
+still at work, once an earlier confirmation run of mine that had not ended; alone in a worktree of its own, and in a scratch
+copy, the check reports the change in 8 of the first 70 runs – one confirmation per worktree at a time). Every change was
 confirmed here before it was kept (`tools/confirm_seeded.py`, in the scratch worktree: demonstration on the
 clean tree → exit 0; `git apply`; demonstration → non-zero; the test files of the touched modules → pass;
 `./check <P> quick` with `VERIF_REPO=<worktree>`; `git checkout`). Kept changes live in `seeded/<id>/`
